@@ -105,11 +105,15 @@ def canon_file(text):
         out.append((ws, com.rstrip()))
     return out
 
+def titles_differ(a, b):
+    """same data, different text of a title / comment (informational: no reader looks at it)"""
+    return [(x[1], y[1]) for x, y in zip(canon_file(a), canon_file(b)) if x[1] != y[1]]
+
 def files_equiv(a, b):
     ca, cb = canon_file(a), canon_file(b)
     if len(ca) != len(cb): return 'number of lines %d vs %d' % (len(ca), len(cb))
     for k, (x, y) in enumerate(zip(ca, cb)):
-        if x[1] != y[1]: return 'line %d: comment %r vs %r' % (k + 1, x[1], y[1])
+        if bool(x[1]) != bool(y[1]): return 'line %d: comment %r vs %r' % (k + 1, x[1], y[1])
         if len(x[0]) != len(y[0]): return 'line %d: %d words vs %d' % (k + 1, len(x[0]), len(y[0]))
         for u, v in zip(x[0], y[0]):
             if u[0] == 'n' and v[0] == 'n' and close_model(u[1], v[1]): continue       # values recomputed by the reader: last digits
@@ -254,9 +258,10 @@ def g_cols(rng, nech, quick, special=None, used=()):
     if any(t in (23, 24) for t in locs): tags.add('facies-locator')
     return cols, tags
 def gen_db(rng, quick):
-    nech = rng.choice([0, 1, 2, 5, 20] + ([] if quick else [300]))
+    nech = rng.choice([1, 1, 2, 5, 20] + ([] if quick else [300]))
     special = rng.choice([None, None, None, None, 'provisional', 'blank', 'hash', 'NA-name'])
     cols, tags = g_cols(rng, nech, quick, special)
+    if rng.random() < .05: nech = 0; cols = []; tags = {'no-sample'}
     if special == 'blank' and cols: cols[rng.randrange(len(cols))][0] = S('Zn ppm'); tags.add('name-with-blank')
     if special == 'hash' and cols: cols[rng.randrange(len(cols))][0] = S('#1'); tags.add('name-starting-with-hash')
     if special == 'NA-name' and cols: cols[rng.randrange(len(cols))][0] = S('NA')
@@ -311,7 +316,8 @@ def gen_vario(rng, quick):
             if bench: tags.add('bench')
             if cyl: tags.add('cylrad')
             dirs.append([0, npas, D(Fraction(rng.randint(2, 12), 4)), D(Fraction(1, 2)), D(Fraction(rng.choice([90, 45, 22.5, 10]))), 0, 0, bench, cyl, D(Fraction(0)), breaks, codir, []])
-    vals = [[D(gdbl(rng, na=rng.random() < .3, mag=False)) for _ in range(nech)] for _ in range(nvar)]
+    def gval(na): return None if na and rng.random() < .12 else Fraction(rng.randint(-800, 800), rng.choice([1, 4, 8]))      # moderate: results stay far below 1e30
+    vals = [[D(gval(rng.random() < .3)) for _ in range(nech)] for _ in range(nvar)]
     nas = []
     if rng.random() < .15: nas = [[0, rng.randint(0, 2), rng.randint(0, 2)]]; tags.add('undefined-result')
     tags.add('calcul%d' % calcul)
@@ -335,7 +341,8 @@ def gen_model(rng, quick):
         rng_ = gdbl(rng, pos=True, mag=False) + Fraction(1, 8)
         ranges = []; angles = []
         if t != 0 and ndim > 1 and rng.random() < .5:
-            ranges = [D(gdbl(rng, pos=True, mag=False) + Fraction(1, 8)) for _ in range(ndim)]; tags.add('aniso')
+            ranges = [D(gdbl(rng, pos=True, mag=False) + Fraction(1 + k, 8)) for k in range(ndim)]; tags.add('aniso')
+            if len(set(map(tuple, ranges))) < 2: ranges[0] = D(undy(ranges[0]) * 2)
             if rng.random() < .6:
                 angles = [D(Fraction(rng.choice([30, 45, 10, 123, -20]))), D(Fraction(0))] if ndim == 2 else [D(Fraction(rng.choice([30, 10]))), D(Fraction(rng.choice([0, 20]))), D(Fraction(rng.choice([0, 7])))]
                 tags.add('rotated')
@@ -484,6 +491,7 @@ def key_of(cls, path, a, b, case):
     if cls.name == 'AnamHermite':
         if p == 'psiHn': return 'AnamHermite:coefficients-scaled-twice-by-support-coefficient'
         if p == 'flagBound': return 'AnamHermite:flagBound-not-saved'
+        if p in ('variance', 'mean') and a is not None and b is not None and abs(a - b) <= 1e-12 * max(abs(a), abs(b)): return 'AnamHermite:rewrite-differs'     # recomputed from the rounded coefficients
         if p == 'variance' and case[2][2] != [] and undy(case[2][2]) < 1: return 'AnamHermite:coefficients-scaled-twice-by-support-coefficient'
     if cls.name in ('Db', 'DbGrid'):
         rec = case[2]; cols = rec[2] if cls.name == 'Db' else rec[6]
@@ -493,6 +501,7 @@ def key_of(cls, path, a, b, case):
         if p.endswith('locators') and any(c[1] in (23, 24) for c in cols): return 'Db:locator-facies-gausfac-read-as-f-g'
         if p.endswith('names'): return 'Db:name-collides-with-provisional-name'
     if cls.name == 'Vario':
+        if case[2][2] in (1, 2, 9): return 'Vario:calcul-type-not-saved'      # asymmetric calculation: everything after the first direction is misread
         if p in ('flagAsym', 'calcul', 'dirs.results'): 
             if case[2][2] in (1, 2, 9): return 'Vario:calcul-type-not-saved'
         if p == 'calcul': return 'Vario:calcul-type-not-saved'
@@ -500,6 +509,7 @@ def key_of(cls, path, a, b, case):
         if p in ('dirs.bench', 'dirs.cylRad', 'dirs.idate', 'dirs.breaks', 'dirs.flagRegular', 'dates'): return 'Vario:%s-not-saved' % p.split('.')[-1].replace('flagRegular', 'breaks')
     if cls.name == 'Model':
         if p == 'means' and case[2][4]: return 'Model:means-not-saved-with-drift'
+        if p == 'covs.rotMat' and any(cv[5] and len(set(map(tuple, cv[3]))) <= 1 for cv in case[2][3]): return 'Model:rotation-of-isotropic-structure-not-saved'
     return '%s:%s-not-preserved' % (cls.name, p)
 
 # ----------------------------------------------------------------------------- main
@@ -527,20 +537,26 @@ def run(ctx):
     ctx.assumptions = ['objects are built through the public API; strings are non-empty words without blanks (other strings are exercised separately and reported)',
                        'values compared to 15 significant digits (relative 6e-15), undefined values must stay undefined']
 
-def run_impl_all(ctx, exe, name, cases, env):
-    """run the harness on all the cases; a crash costs only the crashing case (result None)"""
-    out = []; start = 0; rounds = 0
-    while start < len(cases) and rounds < 40:
-        cf = write_cases(ctx, '%s_%d' % (name, rounds), cases[start:])
+def run_impl_all(ctx, exe, name, cases, env, chunk=40):
+    """run the harness on all the cases, a few dozen per process; when a process dies, its cases are run again one per
+    process, so that a crash is charged to the case that crashes alone (result (-990 phase)) and to no other"""
+    out = []
+    def run_some(tag, sub):
+        cf = write_cases(ctx, '%s_%s' % (name, tag), sub)
         rc, res = run_impl(ctx, exe, cf, env=env)
-        out += res
-        start += len(res)
-        if start < len(cases):
-            try: phase = open(os.path.join(env['VERIF_C08_DIR'], 'progress.txt')).read()
-            except Exception: phase = '?'
-            out.append([-990, S(phase)]); start += 1      # the harness died on this one
-        rounds += 1
-    out += [None] * (len(cases) - len(out))
+        return res
+    for start in range(0, len(cases), chunk):
+        sub = cases[start:start + chunk]
+        res = run_some('c', sub)
+        if len(res) == len(sub):
+            out += res; continue
+        for k, c in enumerate(sub):          # isolate
+            r = run_some('i', [c])
+            if len(r) == 1: out.append(r[0])
+            else:
+                try: phase = open(os.path.join(env['VERIF_C08_DIR'], 'progress.txt')).read()
+                except Exception: phase = '?'
+                out.append([-990, S(phase)])
     return out
 
 def load_corpus(ctx):
@@ -550,6 +566,7 @@ def load_corpus(ctx):
 
 def main_part(ctx, quick, rng, runner, exe, env):
     found_input = False
+    ctx.notes_seen = set()
     per = 30 if quick else 400
     cases = []; tags = []
     for c in load_corpus(ctx):
@@ -647,6 +664,11 @@ def main_part(ctx, quick, rng, runner, exe, env):
                 w = written[i]
                 e = files_equiv(US(w[0]), fileA)
                 if e: drift.append('file printed by the model for the original object differs from the dump: ' + e)
+                else:
+                    td = titles_differ(US(w[0]), fileA)
+                    if td and ('titles:' + cls.name) not in ctx.notes_seen:
+                        ctx.notes_seen.add('titles:' + cls.name)
+                        ctx.notes.append('%s: the text of a title differs between model and library (data identical): %r' % (cls.name, td[0]))
                 rr = reread.get(i)
                 if rr is None: drift.append('implementation crashed reading the model file')
                 elif (rr[0] == 1) != (w[1][0] == 1): drift.append('model file: implementation %s, model %s' % ('reads' if rr[0] else 'rejects', 'reads' if w[1][0] == 1 else 'rejects'))
@@ -706,6 +728,11 @@ def grid_formats(ctx, quick, rng, exe, env):
         ncol = 1 if rng.random() < .7 else 2
         cols = [[None if rng.random() < .1 else Fraction(rng.choice([rng.randint(-50, 50), rng.randint(-5000, 5000)]), rng.choice([1, 4, 8])) for _ in range(nech)] for _ in range(ncol)]
         cases.append([4, fmt, nx, [D(v) for v in dx], [D(v) for v in x0], [D(v) for v in ang], [[D(v) for v in c] for c in cols]])
+    # directed cases (always run): the value 3, a vertical mesh / origin, a direction with a single node
+    F = Fraction
+    cases = [[4, 1, [2, 2, 1], [D(F(1)), D(F(1)), D(F(1))], [D(F(0)), D(F(0)), D(F(0))], [D(F(0))] * 3, [[D(F(1)), D(F(3)), D(F(5)), D(F(7))]]],
+             [4, 1, [2, 2, 2], [D(F(1)), D(F(1)), D(F(5))], [D(F(0)), D(F(0)), D(F(30))], [D(F(0))] * 3, [[D(F(k)) for k in (1, 2, 4, 5, 6, 7, 8, 9)]]],
+             [4, 0, [1, 3], [D(F(1)), D(F(2))], [D(F(10)), D(F(20))], [D(F(0))] * 2, [[D(F(1)), D(F(2)), D(F(4))]]]] + cases
     res = run_impl_all(ctx, exe, 'p5', cases, env)
     def close(a, b, tol):
         if a is None or b is None: return a is None and b is None
@@ -745,7 +772,7 @@ def grid_formats(ctx, quick, rng, exe, env):
             elif ('mesh' in kinds or 'origin' in kinds) and len(nx) == 3: key = 'GridIfpEn:vertical-origin-and-mesh-not-written'
             else: key = 'GridIfpEn:' + kinds[-1]
         else:
-            key = 'GridZycor:' + ('single-node-direction' if 1 in nx else kinds[-1])
+            key = 'GridZycor:' + ('single-node-direction' if 1 in nx else 'only-first-variable-written' if 'variables' in kinds else kinds[-1])
         ctx.violation(key, '%s: %s' % (name, '; '.join(w[1] for w in why[:3])), {'format': name, 'case': sx_str(c), 'how': 'harness/C08.cpp operation 4: write the grid with the format class, read it back'})
         found = True
     return found
